@@ -2,8 +2,8 @@
 // (how it died + message + the cue frames on the stack + the shape of the
 // input), never wider.  See design/C02-explore-notes.md.
 //
-// F-C02-1 (nondeterministic order of "unreferenced alias or let clause" errors)
-// is recognised on the transcripts themselves: worker.go normalize().
+// F-C02-1 (nondeterministic order of "unreferenced alias or let clause" errors) is fixed in /repo
+// (ff805e5) and no longer recognised: it would be reported as a violation.
 package main
 
 import (
@@ -22,14 +22,6 @@ type knownClass struct {
 }
 
 var knownClasses = []*knownClass{
-	{
-		ID: "F-C02-1",
-		What: "internal/core/compile popScope ranges over the alias map: the order of 'unreferenced alias or let clause' errors " +
-			"(err.Error(), errors.Errors(err), the error quoted by exporters) differs between runs of the same input",
-		How:      []string{"nondet"},
-		DetailRe: []string{`^transcripts differ only in the order of 'unreferenced alias or let clause' errors`},
-		Input:    "any (recognised on the transcripts: equal after worker.go normalize())",
-	},
 	{
 		ID: "F-C02-2",
 		What: "nesting that does not pass parser.parseUnaryExpr (field chains `a: a: a: ... 1`, comprehension bodies `if c {if c {...`) " +
